@@ -18,10 +18,10 @@ def plan(tier, seed):
     specs = []
     for i in range(10 if tier == "quick" else 12):
         specs.append({"name": f"pickled{i}", "cls": "PickledDict", "index": i,
-                      "sequences": 250 if tier == "quick" else 5000, "budget_s": 90 if tier == "quick" else 1200})
+                      "sequences": 250 if tier == "quick" else 100000, "budget_s": 90 if tier == "quick" else 420})
     for i in range(5 if tier == "quick" else 4):
         specs.append({"name": f"dbm{i}", "cls": "DBMDict", "index": i,
-                      "sequences": 60 if tier == "quick" else 1200, "budget_s": 120 if tier == "quick" else 1200})
+                      "sequences": 60 if tier == "quick" else 20000, "budget_s": 120 if tier == "quick" else 420})
     return specs
 
 
